@@ -167,12 +167,20 @@ Holds(p, S, c) ==
          \A u \in UsedOf(S, UsesOfRes(p, c.res)) :
            LET t == p.uses[u].task
                tk == p.tasks[t]
-               hit == HitCount(c, S.bs[u], S.be[u])
-           IN  IF tk.kind # "V" THEN hit = 0
+               own == HitCount(c, S.bs[u], S.be[u])
+               \* the task makes no progress while ANY interruption calendar of its worker is active: the
+               \* lengthening counts the instants hit by some applied top-level interruption constraint
+               others == { d \in 1..Len(p.cons) :
+                             /\ p.cons[d].cls \in {"ResourceInterrupted", "ResourcePeriodicallyInterrupted"}
+                             /\ p.cons[d].top /\ S.ap[d]
+                             /\ p.uses[u].worker \in UnitsOf(p, p.cons[d].res) }
+               At(k) == IF c.top THEN \E d \in others : CalHit(p.cons[d], k) ELSE CalHit(c, k)
+               hit == Cardinality({ k \in S.bs[u]..(S.be[u] - 1) : At(k) })
+           IN  IF tk.kind # "V" THEN own = 0
                ELSE \* a variable task may span interruptions but neither starts nor
                     \* ends strictly inside one, and is lengthened by the overlapped time
-                    /\ ~(CalHit(c, S.bs[u]) /\ S.bs[u] > 0 /\ CalHit(c, S.bs[u] - 1))
-                    /\ ~(CalHit(c, S.be[u]) /\ S.be[u] > 0 /\ CalHit(c, S.be[u] - 1))
+                    /\ ~(At(S.bs[u]) /\ S.bs[u] > 0 /\ At(S.bs[u] - 1))
+                    /\ ~(At(S.be[u]) /\ S.be[u] > 0 /\ At(S.be[u] - 1))
                     /\ (S.e[t] - S.s[t]) - hit >= tk.min
                     /\ Has(tk.max) => (S.e[t] - S.s[t]) - hit <= Val(tk.max)
     [] c.cls = "ResourceNonDelay" ->
